@@ -25,15 +25,24 @@ fn ltype(s: &str) -> BatchLimitType {
     }
 }
 
+/// Sizes from 1000 on stand for sizes beyond 32 bits: the library sees 2^32 + (size - 1000), the record keeps the size of
+/// the case.  The map keeps the order of the sizes and the outcome of every comparison the batching makes (count x largest
+/// size against limit and limit x prefetch, all far below 1000), so the model decides the same on both.
+const BIG: usize = 1000;
+fn real_size(s: usize) -> usize {
+    if s >= BIG { (1usize << 32) + (s - BIG) } else { s }
+}
+
 fn run(sizes: &[usize], sort: bool, shuffle: bool, pf: usize, limit: usize, lt: &str, seed: u64) -> (Vec<Value>, bool, String) {
-    let items: Vec<It> = sizes.iter().enumerate().map(|(i, &s)| It { id: i + 1, sz: s }).collect();
+    let wide = sizes.iter().any(|&s| s >= BIG && s < BIG + 100) && limit < BIG / 8;
+    let items: Vec<It> = sizes.iter().enumerate().map(|(i, &s)| It { id: i + 1, sz: if wide { real_size(s) } else { s } }).collect();
     let n = items.len();
     let mut it = items.into_iter().batched(sort, shuffle, pf, limit, ltype(lt), Some(seed));
     let mut out = vec![];
     let mut ended = false;
     for _ in 0..(n + 3) {
         match guard(|| it.next()) {
-            Ok(Some(b)) => out.push(Value::Array(b.iter().map(|x| json!({"id": x.id, "sz": x.sz})).collect())),
+            Ok(Some(b)) => out.push(Value::Array(b.iter().map(|x| json!({"id": x.id, "sz": sizes[x.id - 1]})).collect())),
             Ok(None) => {
                 ended = true;
                 break;
@@ -107,6 +116,13 @@ pub fn gen(seed: u64, n: usize) -> Vec<Value> {
                 return json!({"kind": "batched", "sizes": sizes, "sort": rng.random_bool(0.5), "shuffle": rng.random_bool(0.5),
                               "pf": rng.random_range(0..=3), "limit": 500000000u64, "unlimited": true,
                               "ltype": if rng.random_bool(0.5) { "count" } else { "padded" }, "seed": rng.random::<u32>()});
+            }
+            if i % 25 == 6 {
+                // item sizes beyond 32 bits (written 1000 + k, see real_size) among small ones, limits far below
+                let wide: Vec<usize> = (0..rng.random_range(2..=9)).map(|_| if rng.random_bool(0.35) { 1000 + rng.random_range(0..4usize) } else { rng.random_range(0..=5) }).collect();
+                let lim = [4usize, 9, 16, 40][rng.random_range(0..4)];
+                return json!({"kind": "batched", "sizes": wide, "sort": rng.random_bool(0.5), "shuffle": rng.random_bool(0.5),
+                              "pf": rng.random_range(0..=4), "limit": lim, "ltype": "padded", "seed": rng.random::<u32>()});
             }
             if i % 25 == 4 {
                 // many items per batch: counts beyond 8 bits
